@@ -230,6 +230,22 @@ CHECKS = {
          "in random observation order; stored transactions are reloaded and compared (id, inputs, outputs, raw). Found and fixed: F17, F23, F24, F38."),
    design_ref='DESIGN.md §5 C08',
    note=COMMON_NOTE + "One network and one account per wallet; SQL semantics and two simultaneously open SQLAlchemy sessions are outside the model (a hand-off continues on the receiving object). Outputs on non-leaf keys of an HD wallet are not generated."),
+ 'C07': dict(
+   technique='Lean 4 theorems about a transcription of transaction_create / select_inputs / estimate_size / sweep / bumpfee (conservation, fee >= 0, rate limits, selection soundness, insufficient funds fail) for all requests + call-by-call correspondence with the real methods (logged estimate_size and select_inputs calls, scripted randomness) and the statement checked on every created transaction incl. an independent parse of its raw bytes',
+   text=("Proved in Lean for every request (any candidate rows, amounts, fee argument, service estimate, change count, random draws): a created "
+         "transaction balances (inputs = requested outputs + change + reported fee), the fee is >= 0, the reported fee rate is inside the network "
+         "limits; with automatic inputs every input is one of the candidate rows (unspent, required confirmations), none twice, and they cover "
+         "amount + fee estimate; if the candidates cannot pay amount + fee estimate, or explicit inputs cannot pay the outputs (or outputs + "
+         "explicit fee), the request fails; a single change output is positive; a sweep pays out exactly the swept inputs; a fee bump leaves "
+         "recipient outputs untouched and takes at least the extra fee from change. The transcription uses the exact binary64 model for the "
+         "float expressions. It is compared call by call with the real code on HD legacy/segwit/p2sh-segwit, single-key and 2-of-3 multisig "
+         "wallets: every estimate_size call, every select_inputs call (candidate rows read with the same query), every transaction_create "
+         "(fee, fee_per_kb, inputs, change amounts or the error kind; random.randint and numpy dirichlet draws recorded), sweep and "
+         "Transaction.bumpfee. Every created transaction is additionally checked against the sentences of C07 on the objects and on the raw "
+         "bytes parsed by the Lean parser (recipients once with exact script, other outputs to change keys, inputs distinct/unspent/confirmed, "
+         "signs and verifies). Found and fixed: F39, F41, F42; listed: F40 (invalid explicit input lists are accepted)."),
+   design_ref='DESIGN.md §5 C07',
+   note=COMMON_NOTE + "Rows with equal (confirmations, value) may come back from SQLite in either order; selections differing only in such ties count as equal. WalletTransaction.bumpfee's fallback (adding an input) and send()'s fee re-estimation are exercised through C08 histories, not modelled."),
 }
 
 NOT_YET = {}
